@@ -87,6 +87,8 @@ pub struct Session {
 
 impl Session {
     async fn handle_io_error(&self, context: &str, error: std::io::Error) -> AnyTlsError {
+        #[cfg(anytls_verif)]
+        crate::verif::point("ioerr").await;
         tracing::error!(
             session_id = self.id(),
             ctx = context,
@@ -217,6 +219,8 @@ impl Session {
         if already_closed {
             return Ok(());
         }
+        #[cfg(anytls_verif)]
+        crate::verif::point("cl.flag").await;
         self.close_notify.notify_waiters();
 
         // Close stream data receiver so process_stream_data exits
@@ -231,9 +235,13 @@ impl Session {
             }
         }
 
+        #[cfg(anytls_verif)]
+        crate::verif::point("cl.drained").await;
         // Attempt to shutdown writer gracefully
         {
             let mut writer = self.writer.lock().await;
+            #[cfg(anytls_verif)]
+            crate::verif::point("cl.locked").await;
             match time::timeout(Duration::from_secs(1), writer.shutdown()).await {
                 Ok(Ok(())) => {}
                 Ok(Err(e)) => {
@@ -378,6 +386,8 @@ impl Session {
                     buffer_before_decode,
                     buffer.len()
                 );
+                #[cfg(anytls_verif)]
+                crate::verif::point("rl.frame").await;
                 self.handle_frame(frame).await?;
             }
             if frame_count == 0 && n > 0 {
@@ -785,6 +795,8 @@ impl Session {
             self.is_client
         );
 
+        #[cfg(anytls_verif)]
+        crate::verif::point("os.id").await;
         // Create channels for this stream
         let (receive_tx, receive_rx) = mpsc::unbounded_channel();
 
@@ -809,6 +821,8 @@ impl Session {
 
         tracing::trace!("[Session] Stream {} stored in session", stream_id);
 
+        #[cfg(anytls_verif)]
+        crate::verif::point("os.registered").await;
         // Send SYN frame
         tracing::trace!("[Session] Sending SYN frame for stream {}", stream_id);
         let frame = Frame::control(Command::Syn, stream_id);
@@ -859,6 +873,8 @@ impl Session {
             buffer.len()
         );
 
+        #[cfg(anytls_verif)]
+        crate::verif::point("wf.encoded").await;
         // Check if buffering
         if self.buffering.load(std::sync::atomic::Ordering::Relaxed) {
             tracing::trace!(
@@ -905,6 +921,8 @@ impl Session {
             }
         }
 
+        #[cfg(anytls_verif)]
+        crate::verif::point("wf.buf_released").await;
         // Log what we're about to send
         if buffer.len() >= 7 {
             tracing::info!(
@@ -932,6 +950,8 @@ impl Session {
                 "[Session] write_with_padding: Writing {} bytes without padding",
                 buffer.len()
             );
+            #[cfg(anytls_verif)]
+            crate::verif::point("wp.lock").await;
             let mut writer = self.writer.lock().await;
             if let Err(e) = writer.write_all(&buffer).await {
                 return Err(self.handle_io_error("write_without_padding", e).await);
@@ -950,6 +970,8 @@ impl Session {
         let pkt = self
             .pkt_counter
             .fetch_add(1, std::sync::atomic::Ordering::SeqCst);
+        #[cfg(anytls_verif)]
+        crate::verif::point("wp.pkt").await;
         let padding_factory = {
             let padding_guard = self.padding.read().await;
             padding_guard.clone()
@@ -960,6 +982,8 @@ impl Session {
             // Stop padding after stop packets
             // Note: We should probably disable send_padding, but that requires mutable access
             // For now, just write directly
+            #[cfg(anytls_verif)]
+            crate::verif::point("wp.lock").await;
             let mut writer = self.writer.lock().await;
             if let Err(e) = writer.write_all(&buffer).await {
                 return Err(self.handle_io_error("write_no_padding_stop", e).await);
@@ -975,6 +999,8 @@ impl Session {
 
         // If no sizes defined, write directly
         if pkt_sizes.is_empty() {
+            #[cfg(anytls_verif)]
+            crate::verif::point("wp.lock").await;
             let mut writer = self.writer.lock().await;
             if let Err(e) = writer.write_all(&buffer).await {
                 return Err(self.handle_io_error("write_no_padding_sizes", e).await);
@@ -985,6 +1011,8 @@ impl Session {
             return Ok(());
         }
 
+        #[cfg(anytls_verif)]
+        crate::verif::point("wp.lock").await;
         let mut writer = self.writer.lock().await;
 
         for size in pkt_sizes {
@@ -1072,6 +1100,8 @@ impl Session {
             }
         }
 
+        #[cfg(anytls_verif)]
+        crate::verif::point("wp.flush").await;
         tracing::trace!("[Session] write_with_padding: Flushing writer");
         if let Err(e) = writer.flush().await {
             return Err(self.handle_io_error("flush_with_padding", e).await);
@@ -1103,6 +1133,8 @@ impl Session {
         // Start receive loop in background
         let session = Arc::clone(&self);
         tokio::spawn(async move {
+            #[cfg(anytls_verif)]
+            crate::verif::name_task("recv");
             tracing::debug!(
                 "[Session] recv_loop task spawned (client={})",
                 session.is_client
@@ -1137,6 +1169,8 @@ impl Session {
         // Start stream data processing in background
         let session = Arc::clone(&self);
         tokio::spawn(async move {
+            #[cfg(anytls_verif)]
+            crate::verif::name_task("fwd");
             tracing::debug!(
                 "[Session] process_stream_data task spawned (client={})",
                 session.is_client
@@ -1151,6 +1185,8 @@ impl Session {
         if let Some(heartbeat_state) = self.heartbeat.as_ref().map(Arc::clone) {
             let session = Arc::clone(&self);
             tokio::spawn(async move {
+                #[cfg(anytls_verif)]
+                crate::verif::name_task("hb");
                 let session_id = session.id();
                 let mut ticker = time::interval(heartbeat_state.interval);
                 ticker.set_missed_tick_behavior(MissedTickBehavior::Delay);
@@ -1280,6 +1316,8 @@ impl Session {
                         );
                         break;
                     }
+                    #[cfg(anytls_verif)]
+                    crate::verif::point("psd.dequeued").await;
                     let data_len = data.len();
                     tracing::debug!(
                         session_id = session_id,
@@ -1337,6 +1375,15 @@ impl Session {
         process_span.record("bytes_out", total_bytes_out as u64);
         process_span.record("iterations", iteration);
         Ok(())
+    }
+
+    /// Sizes of the two per-stream tables (verification accessor).
+    #[cfg(anytls_verif)]
+    pub async fn verif_table_sizes(&self) -> (usize, usize) {
+        (
+            self.streams.read().await.len(),
+            self.stream_receive_tx.read().await.len(),
+        )
     }
 
     /// Get session sequence number
